@@ -32,6 +32,8 @@ if __name__ == "__main__":
         r = run(sd, extra[0] if extra else None)
         caught = {p: v.get("exit") for p, v in r.items()} if "error" not in r else r
         results[sid] = dict(checks=caught, lines={p: v.get("lines", [])[-2:] for p, v in r.items()} if "error" not in r else {},
+                            detail={p: v.get("detail", []) for p, v in r.items()} if "error" not in r else {},
+                            lost={p: v.get("lost", []) for p, v in r.items()} if "error" not in r else {},
                             at=time.strftime("%Y-%m-%dT%H:%M:%S"))
         print(sid, caught, flush=True)
     json.dump(results, open(path, "w"), indent=1)
